@@ -282,6 +282,12 @@ func runOne(r *sim.Run) {
 	if ru.g.longLived {
 		r.Count("probe:genesis_is_a_snapshot_of_a_long_lived_chain", 1)
 	}
+	if ru.g.manySolicited > 0 {
+		r.Count("probe:hundreds_of_solicited_preimages_in_genesis", 1)
+	}
+	if ru.g.prefixTwins {
+		r.Count("probe:storage_entries_sharing_an_8_octet_state_key_prefix", 1)
+	}
 	if ru.g.populous > 0 {
 		r.Count("probe:populous_genesis_state", 1)
 	}
